@@ -891,3 +891,49 @@ impl s2n_quic::provider::random::Generator for Random {
         self.0.fill(dest)
     }
 }
+
+// ---------------------------------------------------------------------------
+// deterministic connection-id format: same semantics as provider::connection_id::default
+// (random ids of fixed length, optional lifetime, optional handshake-id rotation) but drawn
+// from the scenario's seed instead of the thread rng, so that a scenario replays exactly
+
+pub struct CidFormat {
+    pub rng: vq_util::Rng,
+    pub len: usize,
+    pub lifetime: Option<core::time::Duration>,
+    pub rotate_handshake: bool,
+}
+
+impl s2n_quic::provider::connection_id::Generator for CidFormat {
+    fn generate(
+        &mut self,
+        _info: &s2n_quic::provider::connection_id::ConnectionInfo,
+    ) -> s2n_quic::provider::connection_id::LocalId {
+        let mut id = [0u8; 20];
+        let id = &mut id[..self.len];
+        self.rng.fill(id);
+        (&*id).try_into().expect("length checked at construction")
+    }
+
+    fn lifetime(&self) -> Option<core::time::Duration> {
+        self.lifetime
+    }
+
+    fn rotate_handshake_connection_id(&self) -> bool {
+        self.rotate_handshake
+    }
+}
+
+impl s2n_quic::provider::connection_id::Validator for CidFormat {
+    fn validate(
+        &self,
+        _info: &s2n_quic::provider::connection_id::ConnectionInfo,
+        buffer: &[u8],
+    ) -> Option<usize> {
+        if buffer.len() >= self.len {
+            Some(self.len)
+        } else {
+            None
+        }
+    }
+}
